@@ -531,6 +531,17 @@ func checkEmitOrder(ctx *Ctx, roles *EmitterRoles, writer *ssa.Function) {
 	}
 	R.Count("writer-reaching-functions", n)
 	R.Floor("writer-reaching-functions", 80)
+	// data blocks: an exported method that hands a caller-supplied byte slice to the writer advances n and the
+	// address by exactly the length of that slice (instructions: C03/length)
+	for _, fn := range funcs {
+		if !reach[fn] || fn == writer || fn.Object() == nil || !fn.Object().Exported() || len(fn.Params) != 2 {
+			continue
+		}
+		if sl, ok := fn.Params[1].Type().Underlying().(*types.Slice); !ok || !types.Identical(sl.Elem(), types.Typ[types.Byte]) {
+			continue
+		}
+		checkDataAdvance(ctx, roles, fn)
+	}
 	// only the writer (and the documented patchers Finalize/Append) store into the target bytes
 	for _, fn := range funcs {
 		fields, _ := ms.FieldsOfParam(fn, 0, roles.Named)
@@ -637,4 +648,76 @@ func orderSemantic(ctx *Ctx, roles *EmitterRoles, fn *ssa.Function, tracked map[
 		}
 	}
 	return ""
+}
+
+// checkDataAdvance: after fn(b) returns on an emitter with a target, n' = n + len(b) and address' = address + len(b),
+// with the listing on or off (loops in arbitrary-iteration mode; neither cell is written inside them).
+func checkDataAdvance(ctx *Ctx, roles *EmitterRoles, fn *ssa.Function) {
+	R := ctx.R
+	S := roles.Struct
+	pos := ctx.Prog.Pos(fn.Pos())
+	for _, text := range []bool{false, true} {
+		key := fmt.Sprintf("%s:advance:text=%v", fn.Name(), text)
+		ip := absint.New()
+		var recv *absint.Ptr
+		var n0, a0, blen *absint.Int
+		_, out := ip.CallFix(fn, func() ([]absint.Val, *absint.State) {
+			st := &absint.State{Heap: absint.NewHeap(nil)}
+			recv = &absint.Ptr{Nil: absint.TriF, Obj: ip.SymObj("a", roles.Named), T: roles.Named}
+			ct := S.Field(roles.Code).Type()
+			if cv, ok := ip.Load(st, fieldPtr(recv, ct, roles.Code), ct).(*absint.Slice); ok {
+				cv.Nil = absint.TriF
+				ip.Store(st, fieldPtr(recv, ct, roles.Code), ct, cv)
+			}
+			k := absint.TriF
+			if text {
+				k = absint.TriT
+			}
+			ip.Store(st, fieldPtr(recv, S.Field(roles.GenText).Type(), roles.GenText), S.Field(roles.GenText).Type(), &absint.Bool{K: k})
+			n0, _ = ip.Load(st, fieldPtr(recv, S.Field(roles.N).Type(), roles.N), S.Field(roles.N).Type()).(*absint.Int)
+			a0, _ = ip.Load(st, fieldPtr(recv, S.Field(roles.Address).Type(), roles.Address), S.Field(roles.Address).Type()).(*absint.Int)
+			pt := fn.Params[1].Type()
+			sv := ip.Load(st, &absint.Ptr{Obj: ip.SymObj("b", types.NewPointer(pt))}, pt)
+			if sl, ok := sv.(*absint.Slice); ok {
+				sl.Nil = absint.TriF
+				blen = sl.Len
+			}
+			return []absint.Val{recv, sv}, st
+		})
+		var imp []string
+		for _, m := range ip.Imprec {
+			if !strings.Contains(m, "unmodelled external") {
+				imp = append(imp, m)
+			}
+		}
+		if out == nil || len(imp) > 0 || n0 == nil || a0 == nil || blen == nil {
+			R.Fail("bounded", key, pos, fmt.Sprintf("not interpretable: %v", imp))
+			continue
+		}
+		o := ip.Ops
+		n1, _ := ip.Load(out, fieldPtr(recv, S.Field(roles.N).Type(), roles.N), S.Field(roles.N).Type()).(*absint.Int)
+		a1, _ := ip.Load(out, fieldPtr(recv, S.Field(roles.Address).Type(), roles.Address), S.Field(roles.Address).Type()).(*absint.Int)
+		var msgs []string
+		okN := false
+		if n1 != nil {
+			wantN := o.Add(n0, o.Convert(blen, n0.W, true, n0.Signed)).Lin.Key()
+			okN = n1.Lin.Key() == wantN
+			for _, ev := range ip.Events {
+				if r, ok := ev.Result.(*absint.Int); ok && ev.Kind == "copy" && o.Add(n0, o.Convert(r, n0.W, true, n0.Signed)).Lin.Key() == n1.Lin.Key() {
+					okN = true // n += copy(...): the copied count is the whole block under the capacity guard (bounded)
+				}
+			}
+		}
+		if !okN {
+			msgs = append(msgs, "n becomes "+fmtVal(n1)+", want n + len(b)")
+		}
+		if a1 == nil || a1.Lin.Key() != o.Add(a0, o.Convert(blen, a0.W, true, a0.Signed)).Lin.Key() {
+			msgs = append(msgs, "address becomes "+fmtVal(a1)+", want address + len(b)")
+		}
+		if len(msgs) > 0 {
+			R.Fail("bounded", key, pos, strings.Join(msgs, "; "))
+		} else {
+			R.Pass("bounded", key, pos, "n and address advance by len(b)")
+		}
+	}
 }
